@@ -65,6 +65,7 @@ Inductive op :=
 | OReload
 | ORevert                     (* Revert to the latest snapshot (bogus name when there is none) *)
 | OSetCheckpoint
+| OGetRevFail                 (* Replica.GetRevisionCounter while the counter block cannot be read: answers -1, keeps everything *)
 | OOpenFail                   (* Server.Open whose last step, the rewrite of volume.meta, fails: refused, nothing kept *)
 | OCloseFail.                 (* Server.Close whose final metadata write fails: the replica's files are closed and
                                  its mode is CLOSED, but the Server keeps the instance and reports the error *)
@@ -186,6 +187,7 @@ Definition step (s : st) (o : op) : st * res :=
   | OSetCheckpoint =>
       with_rep s (fun x =>
         (mkst (present s) (r s) (dcount s) (idirty x) (irebuild x) (applied s) (snaps s), ROk))
+  | OGetRevFail => (s, RErr)
   | OOpenFail => (s, RErr)
   | OCloseFail =>
       match r s with
